@@ -622,31 +622,33 @@ class _Collect:
         self.items.append((key, what, replay_obj))
 
 
-class _Prefix:
-    def __init__(self, ctx, prefix, note):
-        self.ctx, self.prefix, self.note = ctx, prefix, note
-
-    def violation(self, key, what, replay_obj, found_input=True):
-        self.ctx.violation(self.prefix + key, self.note + what, replay_obj, found_input)
-
-
 def all_statement_checks(ctx, groups, res, found):
-    """the statement on the kernels' results and on the results obtained through the graph entry points"""
-    statement_checks(ctx, groups, res, found)
-    gg, gq, gh = [], [], []
+    """the statement on the kernels' results and on the results obtained through the graph entry points (keys 'graph:...');
+    a graph result that fails in the same way as the kernel's result of the same group is the same failure (the graph's
+    nodes are the kernels) and is reported once, under the kernel's key"""
     for g, r in zip(groups, res['groups']):
+        c0, f0 = _Collect(), []
+        statement_checks(c0, [g], {'groups': [r]}, f0)
+        for (key, what, obj), d in zip(c0.items, f0):
+            ctx.violation(key, what, obj)
+            found.append(d)
         gr = r.get('graph')
         if 'operands' not in r or not isinstance(gr, dict):
             continue
-        gg.append(g)
-        gq.append(dict({k: gr[k] for k in ('Qel', 'Qvec') if k in gr}, operands=r['operands']))
+        kernel_keys = {k for k, _, _ in c0.items}
+        rq = dict({k: gr[k] for k in ('Qel', 'Qvec') if k in gr}, operands=r['operands'])
         rh = dict({k: gr[k] for k in ('UB', 'hkl', 'hkl_el') if k in gr}, operands=r['operands'])
         if 'Qvec_of_hkl_graph' in gr:
             rh['Qvec'] = gr['Qvec_of_hkl_graph']
-        gh.append(rh)
-    if gg:
-        statement_checks(_Prefix(ctx, 'graph:', 'through conversion.graph.tof.elastic_Q_vec + transform_coords: '), gg, {'groups': gq}, found)
-        statement_checks(_Prefix(ctx, 'graph:', 'through conversion.graph.tof.elastic_hkl + transform_coords: '), gg, {'groups': gh}, found)
+        via = 'elastic' if g.get('graph', {}).get('via') == 'elastic' else None
+        for pseudo, fn in ((rq, via or 'elastic_Q_vec'), (rh, via or 'elastic_hkl')):
+            c1, f1 = _Collect(), []
+            statement_checks(c1, [g], {'groups': [pseudo]}, f1)
+            for (key, what, obj), d in zip(c1.items, f1):
+                if key in kernel_keys:
+                    continue
+                ctx.violation('graph:' + key, f'through conversion.graph.tof.{fn}({g["graph"]["start"]!r}) + transform_coords: ' + what, obj)
+                found.append(d)
 
 
 def keys_of(groups, res, only_id=None):
